@@ -153,9 +153,28 @@ func Solve2(query, arithQuery string, name string, cfg *SolverCfg) *SolveResult 
 	}
 	var best *ans
 	got := 0
+	// agreement mode: once one solver has decided, the others get a grace period to confirm or contradict it; waiting
+	// for solvers that only time out would multiply the run time without adding information
+	var grace <-chan time.Time
+	definitive := 0
 	for got < len(solvers) {
-		a := <-ch
+		var a ans
+		select {
+		case a = <-ch:
+		case <-grace:
+			got = len(solvers)
+			continue
+		}
 		got++
+		if a.status == "unsat" || a.status == "sat" {
+			definitive++
+			if cfg.Agree && grace == nil {
+				grace = time.After(15 * time.Second)
+			}
+			if cfg.Agree && definitive >= 3 {
+				got = len(solvers) // three agreeing (or one disagreeing, handled below) answers are enough
+			}
+		}
 		res.Answers[a.solver] = a.status
 		if a.status == "unsat" || a.status == "sat" {
 			if best == nil {
